@@ -20,6 +20,7 @@ import (
 	"github.com/hashicorp/nodeenrollment/types"
 	"github.com/hashicorp/nodeenrollment/zzverif/vf"
 	"google.golang.org/protobuf/proto"
+	"google.golang.org/protobuf/types/known/structpb"
 	"google.golang.org/protobuf/types/known/timestamppb"
 )
 
@@ -34,6 +35,7 @@ type Entry struct {
 	Kind int
 	Id   string
 	Data []byte
+	Gone bool // a removed entry kept as a tombstone: lets a harness make "present or removed" a symbolic fact without forking up front
 }
 
 // Storage keeps proto.Marshal(msg) per (kind, id), like the real back ends.
@@ -66,18 +68,18 @@ func (s *Storage) Store(ctx context.Context, m nodeenrollment.MessageWithId) err
 	k := Kind(m)
 	for i := range s.Entries {
 		if s.Entries[i].Kind == k && s.Entries[i].Id == m.GetId() {
-			s.Entries[i].Data = b
+			s.Entries[i].Data, s.Entries[i].Gone = b, false
 			return nil
 		}
 	}
-	s.Entries = append(s.Entries, Entry{k, m.GetId(), b})
+	s.Entries = append(s.Entries, Entry{Kind: k, Id: m.GetId(), Data: b})
 	return nil
 }
 
 func (s *Storage) Load(ctx context.Context, m nodeenrollment.MessageWithId) error {
 	k := Kind(m)
 	for _, e := range s.Entries {
-		if e.Kind == k && e.Id == m.GetId() {
+		if e.Kind == k && e.Id == m.GetId() && !e.Gone {
 			return proto.Unmarshal(e.Data, m)
 		}
 	}
@@ -100,7 +102,7 @@ func (s *Storage) List(ctx context.Context, m proto.Message) ([]string, error) {
 	k := Kind(m)
 	var ids []string
 	for _, e := range s.Entries {
-		if e.Kind == k {
+		if e.Kind == k && !e.Gone {
 			ids = append(ids, e.Id)
 		}
 	}
@@ -111,7 +113,7 @@ func (s *Storage) List(ctx context.Context, m proto.Message) ([]string, error) {
 func (s *Storage) Count(kind int) int {
 	n := 0
 	for _, e := range s.Entries {
-		if e.Kind == kind {
+		if e.Kind == kind && !e.Gone {
 			n++
 		}
 	}
@@ -121,11 +123,20 @@ func (s *Storage) Count(kind int) int {
 // Has reports whether (kind, id) is stored.
 func (s *Storage) Has(kind int, id string) bool {
 	for _, e := range s.Entries {
-		if e.Kind == kind && e.Id == id {
+		if e.Kind == kind && e.Id == id && !e.Gone {
 			return true
 		}
 	}
 	return false
+}
+
+// SetGone marks (kind, id) as removed (gone=true) or present.
+func (s *Storage) SetGone(kind int, id string, gone bool) {
+	for i := range s.Entries {
+		if s.Entries[i].Kind == kind && s.Entries[i].Id == id {
+			s.Entries[i].Gone = gone
+		}
+	}
 }
 
 // Get returns the stored bytes of (kind, id), nil when absent.
@@ -186,7 +197,7 @@ func (s *NodeIdStorage) LoadByNodeId(ctx context.Context, m nodeenrollment.Messa
 	}
 	var out []*types.NodeInformation
 	for _, e := range s.Entries {
-		if e.Kind != KindNode {
+		if e.Kind != KindNode || e.Gone {
 			continue
 		}
 		n := new(types.NodeInformation)
@@ -266,6 +277,27 @@ func (f *FaultyNodeId) LoadByNodeId(ctx context.Context, m nodeenrollment.Messag
 		return err
 	}
 	return f.Loader.LoadByNodeId(ctx, m)
+}
+
+// State builds a one-field client/application state struct without going through structpb's reflection helpers.
+func State(v string) *structpb.Struct {
+	return &structpb.Struct{Fields: map[string]*structpb.Value{"k": {Kind: &structpb.Value_StringValue{StringValue: v}}}}
+}
+
+// StateValue reads the field State wrote ("" when absent).
+func StateValue(s *structpb.Struct) string {
+	if s == nil || s.Fields == nil {
+		return ""
+	}
+	v, ok := s.Fields["k"]
+	if !ok || v == nil {
+		return ""
+	}
+	sv, ok := v.Kind.(*structpb.Value_StringValue)
+	if !ok {
+		return ""
+	}
+	return sv.StringValue
 }
 
 // ---- certificates ----
